@@ -1,4 +1,5 @@
 import Tahoe.Storage.ImmConnLemmas
+import Tahoe.Storage.ImmDirLemmas
 /-!
 C22 — immutable share storage semantics (property theorems only; helper lemmas live in
 `Tahoe/Storage/ImmLemmas.lean` and `Tahoe/Storage/ImmServerLemmas.lean`).
@@ -7,6 +8,23 @@ Model: `Tahoe/Storage/Immutable.lean` (ShareFile / BucketWriter / BucketReader /
 get_buckets); specification and abstraction function: `Tahoe/Storage/ImmSpec.lean`.
 `WF` is the reachable-state invariant; `invariant_holds` shows every history from an empty server
 satisfies it, so the hypotheses `WF s` below are never vacuous restrictions.
+-/
+/-!
+## Coverage of the statement (properties.jsonl C22)
+
+| clause of the statement | theorem(s) for the model |
+|---|---|
+| a share becomes visible to readers only when its upload completes | `visible_iff_closed` (direct histories), `visible_iff_closed_foolscap` (Foolscap histories), `visible_step`/`visible_fstep` |
+| reads return exactly the bytes written | `read_returns_written` + `refines_spec` / `refines_spec_foolscap` (cells = accepted writes; complete shares never change) |
+| … clipped at the allocated size | `read_returns_written` (array has exactly `maxSize` cells; `pread` clips) ; `bwWrite` rejects writes crossing the size (`refines_spec`, `specWrite`) |
+| a write overlapping earlier data with different bytes is rejected without changing stored data | `conflict_rejected_unchanged` (any number of overlapped chunks: `conflicts_iff`, seeded C22-a) |
+| an aborted upload leaves no share behind | `aborted_leaves_nothing`; with directories: `abort_removes_exactly_that_upload` (only that incoming file and its empty bucket dir; no final file or directory — seeded C22-c) |
+| a timed-out upload leaves no share behind | `timed_out_leaves_nothing` |
+| a disconnected upload leaves no share behind | `disconnect_leaves_no_upload` (reachable states; seeded C22-b), `disconnect_is_aborts` |
+| … and releases its space reservation | `aborted_leaves_nothing`, `disconnect_leaves_no_upload` (allocated_size = sum over the other writers), C28 `released_on_close_or_abort`, `abort_always_releases`, `lost_connection_releases_space` |
+| quantifier: histories over several SIs / share numbers, overlapping out-of-order writes | all of the above are for all histories (`invariant_holds`, `reachable_invariants`); no bounds |
+| the `finished` flag returned by `write` | correspondence only (not in the statement) |
+| that the timeout fires after exactly 30·60 s of no write | model constant; correspondence only (boundaries 1799/1800/1801 s generated) |
 -/
 namespace Tahoe.C22
 open Tahoe.Base.File Tahoe.Storage.Imm Tahoe.Generated.Storage
@@ -257,6 +275,122 @@ example : widsOfConn exFS 1 = [0, 1] ∧ widsOfConn exFS 2 = [2, 3] ∧ allocate
     allocatedSize (disconnectOp exFS 1) = 6 + 6 + 3 ∧ visible (disconnectOp exFS 1) (0, 0) = true ∧
     readOp (disconnectOp exFS 1) (0, 0) 0 10 = some [7, 0, 0, 0] ∧
     ((disconnectOp exFS 2).incoming.map (·.1)) = [(0, 4), (0, 1)] := by decide
+
+/-- `closesKey` for front-end operations: only a direct `close` through a live handle completes an upload -/
+def fclosesKey (s : Server) (op : FOp) (k : Key) : Bool :=
+  match op with
+  | .direct o => closesKey s o k
+  | _ => false
+
+def fclosedIn : Server → List FOp → Key → Bool
+  | _, [], _ => false
+  | s, op :: rest, k => fclosesKey s op k || fclosedIn (fstep s op) rest k
+
+theorem visible_fstep (s : Server) (h : WF s) (op : FOp) (ok : FOpOk op) (k : Key) :
+    visible (fstep s op) k = (visible s k || fclosesKey s op k) := by
+  cases op with
+  | direct o => exact visible_step s h o ok k
+  | allocConn c si shs size rec free order =>
+    simp only [fstep, fclosesKey, Bool.or_false, visible,
+      (allocateConn_fields s c si shs size rec free order).1]
+    exact (allocate_effect s h si shs size rec ok free order).2.1 k
+  | disconnect c =>
+    simp only [fstep, fclosesKey, Bool.or_false, visible, disconnectOp, (wf_foldl_abort _ s h).2]
+
+/-- **visible_iff_closed over Foolscap histories**: after any history of direct calls, Foolscap
+    allocations on connections and connection losses from an empty server, a share is visible iff
+    some `close()` through a live handle of that share happened. -/
+theorem visible_iff_closed_foolscap (ro : Bool) (rs : Nat) (ops : List FOp) (ok : ∀ o ∈ ops, FOpOk o)
+    (k : Key) :
+    visible (frun (Server.empty ro rs) ops) k = fclosedIn (Server.empty ro rs) ops k := by
+  suffices H : ∀ (s : Server), WF s → WFH s → ∀ ops, (∀ o ∈ ops, FOpOk o) →
+      visible (frun s ops) k = (visible s k || fclosedIn s ops k) by
+    have := H _ (wf_empty ro rs) (wfh_empty ro rs) ops ok
+    simpa [visible, Server.empty, getK] using this
+  intro s h hh ops
+  induction ops generalizing s with
+  | nil => intro _; simp [frun, fclosedIn]
+  | cons op rest ih =>
+    intro ok
+    have okh := ok op List.mem_cons_self
+    have e := fstep_inv s h hh op okh
+    simp only [frun, List.foldl_cons, fclosedIn]
+    have := ih (fstep s op) e.1 e.2 (fun o ho => ok o (List.mem_cons_of_mem _ ho))
+    simp only [frun] at this
+    rw [this, visible_fstep s h op okh k, Bool.or_assoc]
+
+example : visible exFS (0, 0) = true ∧ fclosedIn (Server.empty false 0) exFOps (0, 0) = true ∧
+    visible exFS (0, 1) = false ∧ visible (disconnectOp exFS 2) (0, 2) = false := by decide
+
+/-- **refines_spec over Foolscap histories**: along any history of front-end operations every step
+    is a step of the write-once-array specification (`FSpecStep`: a lost connection makes exactly
+    its uploads in progress absent), and reads return what the specification returns. -/
+theorem refines_spec_foolscap (ro : Bool) (rs : Nat) (pre : List FOp) (op : FOp)
+    (ok : ∀ o ∈ pre ++ [op], FOpOk o) :
+    let s := frun (Server.empty ro rs) pre
+    FSpecStep s (absShare s) op (absShare (fstep s op)) ∧
+    (∀ k off len, readOp s k off len = specRead (absShare s k) off len) := by
+  intro s
+  obtain ⟨hw, hh⟩ := reachable_invariants ro rs pre (fun o ho => ok o (List.mem_append_left _ ho))
+  exact ⟨fstep_refines s hw hh op (ok op (by simp)), fun k off len => read_refines s hw k off len⟩
+
+example : absShare exFS (0, 0) = .complete [7, 0, 0, 0] ∧
+    absShare exFS (0, 1) = .inProgress 4 [none, none, none, none] ∧
+    absShare (fstep exFS (.disconnect 1)) (0, 1) = .absent ∧
+    absShare (fstep exFS (.disconnect 1)) (0, 2) = absShare exFS (0, 2) := by decide
+
+/-- a prefix map for the examples: even storage indexes share prefix directory 0, odd ones 1 -/
+def exPre : Nat → Nat := fun si => si % 2
+
+/-- the server with its directory tree after: two uploads of SI 0 on connection 1, one upload of
+    SI 2 (same prefix directory) directly, share (0,0) completed -/
+def exD : DServer := dfrun exPre (DServer.empty false 0)
+  [.allocConn 1 0 [0, 1] 4 exRec 1000 [], .direct (.alloc 2 [0] 3 exRec 1000 []), .direct (.write 0 0 [7]),
+   .direct (.close 0)]
+
+/-- **abort_removes_exactly_that_upload** (directory level): in every state reachable by front-end
+    operations, `abort()` / `disconnected()` / timeout of a live upload never raises; it removes
+    exactly that incoming file (every other incoming file and every final file is unchanged); the
+    only directory it can remove is that upload's incoming bucket directory, and it removes it iff no
+    sibling upload of the storage index remains; no final directory (bucket or prefix) and no
+    incoming prefix directory is ever removed. -/
+theorem abort_removes_exactly_that_upload (pre : Nat → Nat) (ro : Bool) (rs : Nat) (ops : List FOp)
+    (ok : ∀ o ∈ ops, FOpOk o) (wid : Nat) (k : Key) (w : Writer) (f : File) :
+    let d := dfrun pre (DServer.empty ro rs) ops
+    findWid wid d.srv.incoming = some (k, (w, f)) →
+    (dAbort d wid).2 = false ∧ (dAbort d wid).1.srv = abortOp d.srv wid ∧
+    (dAbort d wid).1.srv.final = d.srv.final ∧
+    (∀ k', getK k' (dAbort d wid).1.srv.incoming = if k = k' then none else getK k' d.srv.incoming) ∧
+    (∀ x, x ≠ Dir.incDir k.1 → (x ∈ (dAbort d wid).1.dirs ↔ x ∈ d.dirs)) ∧
+    (Dir.incDir k.1 ∈ (dAbort d wid).1.dirs ↔ ∃ e ∈ (dAbort d wid).1.srv.incoming, e.1.1 = k.1) ∧
+    DInv (dAbort d wid).1 := by
+  intro d hf
+  have hd : DInv d := dfrun_dinv pre _ (dinv_empty ro rs) ops ok
+  have inv := dAbort_inv d hd.dirs wid
+  have ex := dAbort_exact d wid k (w, f) hf
+  have hsrv := inv.2.1
+  have hinc : (abortOp d.srv wid).incoming = eraseK k d.srv.incoming := by simp [abortOp, hf]
+  have hd' : DInv (dAbort d wid).1 := by
+    have := dfstep_dinv pre d hd (.direct (.abort wid)) trivial
+    simpa [dfstep] using this
+  refine ⟨inv.1, hsrv, ex.2.1, ?_, ex.2.2.1, ?_, hd'⟩
+  · intro k'; rw [hsrv, hinc]; exact getK_eraseK k k' _
+  · constructor
+    · intro hin
+      apply Classical.byContradiction
+      intro hno
+      apply dAbort_removes_empty d wid k (w, f) hf inv.1 _ hin
+      intro e he heq
+      apply hno
+      exact ⟨e, by rw [hsrv, hinc]; exact he, heq⟩
+    · rintro ⟨e, he, heq⟩
+      rw [← heq]; exact hd'.dirs e he
+
+example : exD.dirs.length = 6 ∧ (findWid 1 exD.srv.incoming).map (·.1) = some (0, 1) ∧
+    -- aborting the last upload of SI 0: its incoming bucket dir goes, the final dir with share (0,0) stays
+    (Dir.incDir 0 ∉ (dAbort exD 1).1.dirs ∧ Dir.finDir 0 ∈ (dAbort exD 1).1.dirs ∧
+     Dir.incPrefix 0 ∈ (dAbort exD 1).1.dirs ∧ Dir.incDir 2 ∈ (dAbort exD 1).1.dirs) ∧
+    visible (dAbort exD 1).1.srv (0, 0) = true ∧ (dAbort exD 1).2 = false := by decide
 
 /-- the same for the 30-minute timeout: once the clock passes an upload's deadline the upload is
     gone (file and reservation), nothing becomes visible, and uploads whose deadline has not
